@@ -28,6 +28,7 @@ Definition row_ok (r : crow) : bool :=
   Bool.eqb (r_1005 r) (t =? 1005) && Bool.eqb (r_1006 r) (t =? 1006) &&
   Bool.eqb (r_ts r) (spec_msm4 t || spec_msm7 t) &&       (* only MSMs carry an extracted timestamp: from EVERY frame shape tried *)
   Bool.eqb (r_tsany r) (spec_msm4 t || spec_msm7 t) &&    (* ... and the other types from NONE of them *)
+  Bool.eqb (r_dec4any r) (spec_msm4 t) && Bool.eqb (r_dec7any r) (spec_msm7 t) &&  (* a family's decoder accepts no other type, whatever the frame holds (also MSMs without satellites) *)
   (r_dispatch r =? spec_dispatch t) &&                    (* full decoding exactly for MSM4, MSM7, 1005, 1006 *)
   r_display r.
 
@@ -47,7 +48,7 @@ Proof. vm_compute. reflexivity. Qed.
 Lemma table_ok : forallb row_ok classify_table = true.
 Proof. vm_compute. reflexivity. Qed.
 
-Definition drow : crow := mkRow 0 false false false 0 false false false false false false false false 0 false.
+Definition drow : crow := mkRow 0 false false false 0 false false false false false false false false false false 0 false.
 Definition lookup (t : Z) : crow := nth (Z.to_nat (t + 2)) classify_table drow.
 
 Lemma rows_from_nth : forall tab lo i, rows_from tab lo = true -> (i < length tab)%nat ->
